@@ -55,6 +55,8 @@ fn th_cfg(variant: ThVariant, hold_layer: bool, h: u16, tt: u16, conc: bool, p: 
         process_unmapped: false,
         concurrent_tap_hold: conc,
         rapid_event_delay: Some(p),
+        layermap: 0,
+        chords_v2: vec![],
     }
 }
 
@@ -109,6 +111,260 @@ fn h_of(c: &MCfg) -> Vec<u16> {
     v
 }
 
+
+// ---------------------------------------------------------------------------------------------
+// Several tap-holds pending at once: key `a` is a tap-hold, the chords (j k) and (l m) of
+// defchordsv2 have tap-hold actions (a chord's action does not go through the input queue, so it
+// can start while another decision is pending), z and y are plain keys. Every tap-hold has output
+// keys of its own, so an output identifies the decision it belongs to. No reference model here:
+// invariants taken from the statement (exactly one outcome per activation, nothing lost, nothing
+// typed before a pending decision, original order).
+
+const CONC_OUT: [[&str; 3]; 3] = [["p", "q", "r"], ["s", "t", "u"], ["v", "w", "x"]];
+
+fn conc_th(i: usize, variant: ThVariant, h: u16, tt: u16) -> Act {
+    Act::TapHold(Box::new(TapHold {
+        variant,
+        tap_timeout: tt,
+        hold_timeout: h,
+        tap: k(CONC_OUT[i][0]),
+        hold: k(CONC_OUT[i][1]),
+        timeout_act: match variant {
+            ThVariant::PressTimeout | ThVariant::ReleaseTimeout => Some(k(CONC_OUT[i][2])),
+            _ => None,
+        },
+        keys: match variant {
+            ThVariant::ReleaseKeys | ThVariant::ExceptKeys => vec![kc("z")],
+            _ => vec![],
+        },
+    }))
+}
+
+fn concurrent_strategy() -> BoxedStrategy<MCase> {
+    let hs = vec![80u16, 150, 300];
+    (
+        (0usize..7, 0usize..7, 0usize..7),
+        (prop::sample::select(hs.clone()), prop::sample::select(hs.clone()), prop::sample::select(hs)),
+        prop::sample::select(vec![0u16, 15]),
+        prop::collection::vec((any::<u16>(), any::<u16>(), any::<u16>()), 2..14),
+    )
+        .prop_map(|((v1, v2, v3), (h1, h2, h3), tt, steps)| {
+            let names = ["a", "j", "k", "l", "m", "z", "y"];
+            let src: Vec<u16> = names.iter().map(|n| kc(n)).collect();
+            let mut layer: Vec<Act> = names.iter().map(|n| k(n)).collect();
+            layer[0] = conc_th(0, VARIANTS[v1], h1, tt);
+            let cfg = MCfg {
+                src,
+                layers: vec![layer],
+                layer_stack: true,
+                delegate: false,
+                block_unmapped: false,
+                process_unmapped: false,
+                concurrent_tap_hold: true,
+                rapid_event_delay: None,
+                layermap: 0,
+                chords_v2: vec![
+                    (vec![kc("j"), kc("k")], conc_th(1, VARIANTS[v2], h2, tt)),
+                    (vec![kc("l"), kc("m")], conc_th(2, VARIANTS[v3], h3, tt)),
+                ],
+            };
+            // units: 0 = a, 1 = block (j k), 2 = block (l m), 3 = z, 4 = y; each step toggles one
+            let gaps = [0u32, 1, 6, 10, 30, 60, 70, 100, 160, 310];
+            let mut down = [false; 5];
+            let mut last_release: [Option<u64>; 3] = [None; 3];
+            let mut hist = vec![];
+            let toggle = |u: usize, down: &mut [bool; 5], inner: u16, hist: &mut Vec<Ev>| {
+                let keys: Vec<u16> = match u {
+                    0 => vec![kc("a")],
+                    1 => vec![kc("j"), kc("k")],
+                    2 => vec![kc("l"), kc("m")],
+                    3 => vec![kc("z")],
+                    _ => vec![kc("y")],
+                };
+                let keys: Vec<u16> = if inner & 1 == 1 { keys.into_iter().rev().collect() } else { keys };
+                for (i, key) in keys.iter().enumerate() {
+                    if i > 0 {
+                        // the keys of a block follow each other within 0-3 ms, nothing in between
+                        let g = ((inner >> 1) % 4) as u32;
+                        if g > 0 {
+                            hist.push(Ev::Gap(g));
+                        }
+                    }
+                    hist.push(if down[u] { Ev::Release(*key) } else { Ev::Press(*key) });
+                }
+                down[u] = !down[u];
+            };
+            for (us, gs, inner) in steps {
+                let mut u = [0usize, 1, 2, 3, 4, 0, 1, 2, 3][pick(us, 9)];
+                // each chord is activated at most once: the press of a chord's action bypasses the
+                // input queue while its release goes through it, so two activations of one chord
+                // can legitimately hold the same output key at once and show as one press
+                if (u == 1 || u == 2) && !down[u] && last_release[u].is_some() {
+                    u = 3;
+                }
+                let mut g = gaps[pick(gs, gaps.len())];
+                if u == 1 || u == 2 {
+                    // chords are not pressed or released in the same instant as other input
+                    // (what chords v2 does with zero-time re-presses is C09's subject)
+                    g = g.max(10);
+                }
+                let now: u64 = hist.iter().map(|e| if let Ev::Gap(x) = e { *x as u64 } else { 0 }).sum();
+                if u <= 2 && !down[u] {
+                    // the same tap-hold is not started again before the output of its previous
+                    // outcome has certainly been released (two holders of one output key would
+                    // show as a single press at the OS)
+                    if let Some(r) = last_release[u] {
+                        g = g.max((r + 40).saturating_sub(now) as u32);
+                    }
+                }
+                if g > 0 {
+                    hist.push(Ev::Gap(g));
+                }
+                if u <= 2 && down[u] {
+                    last_release[u] = Some(now + g as u64 + 3);
+                }
+                toggle(u, &mut down, inner, &mut hist);
+            }
+            for u in 0..5 {
+                if down[u] {
+                    hist.push(Ev::Gap(7));
+                    toggle(u, &mut down, 0, &mut hist);
+                }
+            }
+            MCase { cfg, hist }
+        })
+        .boxed()
+}
+
+fn judge_concurrent(case: &MCase) -> Verdict {
+    use crate::gen::print_cfg;
+    use crate::sim::{OutEv, Sim};
+    let text = print_cfg(&case.cfg);
+    let mut sim = match Sim::new(&text) {
+        Ok(s) => s,
+        Err(e) => return Verdict::failed("harness:config-rejected", format!("{text}\n{e}")),
+    };
+    // input times
+    let mut t = 0u64;
+    let mut a_presses: Vec<u64> = vec![];
+    let mut block_done: [Vec<u64>; 2] = [vec![], vec![]]; // time of the second press of each block
+    let mut plain: Vec<(u64, u16)> = vec![];
+    let (ka, kj, kk, kl, km, kz, ky) = (kc("a"), kc("j"), kc("k"), kc("l"), kc("m"), kc("z"), kc("y"));
+    let mut half: [bool; 2] = [false, false];
+    for e in &case.hist {
+        match e {
+            Ev::Gap(g) => {
+                sim.tick_n(*g as u64);
+                t += *g as u64;
+            }
+            Ev::Press(key) => {
+                sim.press(*key);
+                if *key == ka {
+                    a_presses.push(t);
+                } else if *key == kz || *key == ky {
+                    plain.push((t, *key));
+                } else {
+                    let b = if *key == kj || *key == kk { 0 } else { 1 };
+                    if half[b] {
+                        block_done[b].push(t);
+                    }
+                    half[b] = !half[b];
+                }
+            }
+            Ev::Release(key) => sim.release(*key),
+            _ => return Verdict::discard("event-kind"),
+        }
+    }
+    let hmax = 300u64;
+    sim.tick_n(2 * hmax + 400);
+    let outs = sim.outs.clone();
+    let downs: Vec<u16> = outs.iter().filter_map(|o| if let OutEv::Down(c) = o.ev { Some(c) } else { None }).collect();
+    let cnt = |name: &str| downs.iter().filter(|c| **c == kc(name)).count();
+    let mut v = Verdict::pass(false);
+    let fail = |sig: &str, what: String| -> Verdict {
+        Verdict::failed(sig, format!("{text}{}\n{what}\noutput: {}", hist_to_string(&case.hist), crate::sim::fmt_outs(&outs)))
+    };
+    if sim.k.layout.b().queue.len() >= 30 {
+        return Verdict::discard("pending>=32");
+    }
+    // exactly one outcome per activation
+    let a_out = cnt("p") + cnt("q") + cnt("r");
+    if a_out != a_presses.len() {
+        return fail("concurrent:outcomes-per-press", format!("key a was pressed {} times, its tap/hold/timeout outputs appear {} times", a_presses.len(), a_out));
+    }
+    let mut all_fired = true;
+    for (b, (o, ks)) in [(CONC_OUT[1], ["j", "k"]), (CONC_OUT[2], ["l", "m"])].iter().enumerate() {
+        let fired = cnt(o[0]) + cnt(o[1]) + cnt(o[2]);
+        let (p1, p2) = (cnt(ks[0]), cnt(ks[1]));
+        if p1 != p2 || fired + p1 != block_done[b].len() {
+            return fail(
+                "concurrent:outcomes-per-chord",
+                format!("chord ({} {}) was pressed {} times: its tap/hold/timeout outputs appear {fired} times, the keys themselves {p1} and {p2} times", ks[0], ks[1], block_done[b].len()),
+            );
+        }
+        if p1 > 0 {
+            all_fired = false;
+        }
+    }
+    // plain keys: none lost, original order
+    let plain_out: Vec<u16> = downs.iter().copied().filter(|c| *c == kz || *c == ky).collect();
+    let plain_in: Vec<u16> = plain.iter().map(|(_, c)| *c).collect();
+    if plain_out != plain_in {
+        return fail("concurrent:plain-keys-lost-or-reordered", format!("pressed {:?}, typed {:?}", plain_in.iter().map(|c| crate::gen::kname(*c)).collect::<Vec<_>>(), plain_out.iter().map(|c| crate::gen::kname(*c)).collect::<Vec<_>>()));
+    }
+    // nothing typed before a decision that was pending when it was pressed: the n-th outcome of a
+    // tap-hold precedes every plain key pressed after its n-th activation
+    let pos_of = |names: &[&str], n: usize| -> Option<usize> {
+        let codes: Vec<u16> = names.iter().map(|x| kc(x)).collect();
+        outs.iter().enumerate().filter(|(_, o)| matches!(o.ev, OutEv::Down(c) if codes.contains(&c))).map(|(i, _)| i).nth(n)
+    };
+    let plain_pos: Vec<usize> = outs.iter().enumerate().filter(|(_, o)| matches!(o.ev, OutEv::Down(c) if c == kz || c == ky)).map(|(i, _)| i).collect();
+    let mut ordered_pairs = 0;
+    for (n, t0) in a_presses.iter().enumerate() {
+        let Some(po) = pos_of(&CONC_OUT[0], n) else { continue };
+        for (i, (tz, _)) in plain.iter().enumerate() {
+            if tz > t0 {
+                ordered_pairs += 1;
+                if plain_pos[i] < po {
+                    return fail("concurrent:typed-before-decision", format!("plain key #{i} (pressed at {tz}) is typed before the outcome of press #{n} of a (at {t0})"));
+                }
+            }
+        }
+    }
+    if all_fired {
+        for b in 0..2 {
+            for (n, tk) in block_done[b].iter().enumerate() {
+                let Some(po) = pos_of(&CONC_OUT[b + 1], n) else { continue };
+                for (i, (tz, _)) in plain.iter().enumerate() {
+                    // the chord has certainly started its action 60 ms after its last press
+                    if *tz >= tk + 60 {
+                        ordered_pairs += 1;
+                        if plain_pos[i] < po {
+                            return fail("concurrent:typed-before-decision", format!("plain key #{i} (pressed at {tz}) is typed before the outcome of chord {} activation #{n} (complete at {tk})", b + 1));
+                        }
+                    }
+                }
+            }
+        }
+    }
+    let mut os = crate::sim::OsState::default();
+    for o in &outs {
+        os.apply(o);
+    }
+    if os.anything_down() {
+        return fail("concurrent:key-left-down", format!("{:?}", os.keys));
+    }
+    v.classes.push("concurrent");
+    if all_fired && !block_done[0].is_empty() && !block_done[1].is_empty() && !a_presses.is_empty() {
+        v.classes.push("concurrent:three-tap-holds");
+    }
+    if ordered_pairs > 0 {
+        v.classes.push("concurrent:ordered-pairs");
+    }
+    v.nontrivial = ordered_pairs > 0;
+    v
+}
+
 impl TypedProp for C05 {
     type C = MCase;
     fn id(&self) -> &'static str {
@@ -117,7 +373,7 @@ impl TypedProp for C05 {
     fn info(&self) -> PropInfo {
         PropInfo {
             level: "exploration",
-            rule: "exhaustive part: for each tap-hold config (7 variants x hold=key|layer-while-held x parameter tuples (H, tap-repress window, concurrent-tap-hold, rapid-event-delay)) every toggle schedule of 1..N events over the tap-hold key and two other keys with inter-event gaps from {0,1,H-1,H,H+1}; random part: two tap-hold keys of random variants interleaved with a third key, histories up to 30 events. Oracle: reference model (decision kind, decision tick, complete timestamped output). Non-trivial: the decision was taken while >= 1 other event was buffered, or a gap of H-1/H/H+1 occurs in the history. Distinct: hash of (config, history).",
+            rule: "exhaustive part: for each tap-hold config (7 variants x hold=key|layer-while-held x parameter tuples (H, tap-repress window, concurrent-tap-hold, rapid-event-delay)) every toggle schedule of 1..N events over the tap-hold key and two other keys with inter-event gaps from {0,1,H-1,H,H+1}; random part: two tap-hold keys of random variants interleaved with a third key, histories up to 30 events; a quarter of the random part has several decisions pending at once: key a is a tap-hold and two defchordsv2 chords have tap-hold actions (a chord's action starts without passing the input queue), each with output keys of its own, random variants and timeouts 80/150/300, plain keys z y, histories of 2-14 toggles (each chord activated at most once, chord keys within 0-3 ms of each other). Oracle: reference model (decision kind, decision tick, complete timestamped output); for the several-pending scenario invariants instead of a model: exactly one tap/hold/timeout output per activation (or the chord's keys themselves), plain keys typed exactly once in their original order, the outcome of an activation precedes every plain key pressed after it (60 ms after a chord's last press), nothing left down. Non-trivial: the decision was taken while >= 1 other event was buffered, or a gap of H-1/H/H+1 occurs in the history. Distinct: hash of (config, history).",
             assumptions: vec![
                 "fewer than 32 events pending".into(),
                 "pinned tick conventions of DESIGN.md Appendix A.2 (hold fires when H ticks elapsed since the press was dequeued; H-since with concurrent-tap-hold)".into(),
@@ -138,7 +394,7 @@ impl TypedProp for C05 {
             distinct_by_construction: false,
             required_classes: vec![
                 "decision:tap", "decision:hold", "decision:timeout", "decision:quicktap", "buffered>=1", "random",
-                "exhaustive", "buffered>=2",
+                "exhaustive", "buffered>=2", "concurrent", "concurrent:three-tap-holds", "concurrent:ordered-pairs",
             ],
             hang_secs: 60,
         }
@@ -164,10 +420,19 @@ impl TypedProp for C05 {
                     cfg,
                 })
             }
-            None => Gen::Strat(0),
+            None => {
+                if idx % 4 == 3 {
+                    Gen::Strat(1)
+                } else {
+                    Gen::Strat(0)
+                }
+            }
         }
     }
-    fn strategy(&self, _tier: Tier, _key: u32) -> BoxedStrategy<MCase> {
+    fn strategy(&self, _tier: Tier, key: u32) -> BoxedStrategy<MCase> {
+        if key == 1 {
+            return concurrent_strategy();
+        }
         (
             0usize..7,
             0usize..7,
@@ -192,6 +457,9 @@ impl TypedProp for C05 {
             .boxed()
     }
     fn judge(&self, case: &MCase) -> Verdict {
+        if !case.cfg.chords_v2.is_empty() {
+            return judge_concurrent(case);
+        }
         let hs = h_of(&case.cfg);
         let hmax = hs.iter().copied().max().unwrap_or(0) as u64;
         let settle = 2 * hmax + 80 + 8 * case.hist.len() as u64;
